@@ -29,6 +29,7 @@ CONSTANTS MaxN,         \* children per element: 1 .. MaxN
           MaxT,         \* update time stamps 1 .. MaxT; query times 0 .. MaxT
           Kinds,        \* subset of {"way", "relation"}
           UnannChoices, \* subset of 0 .. MaxN: 0 = fully annotated way, j = way whose child j is not annotated
+          LocKinds,     \* location symbols the step machine explores (subset of LocAll; {"n"} = ordinary ones only)
           BreakAtLate   \* TRUE = LineStringAt leaves its loop at the first too-late update (pinned tree,
                         \* way.go:174); FALSE = it skips that update and goes on (what the doc comment says)
 
@@ -47,18 +48,32 @@ ChildOf(kind, j, unann) ==
         lat |-> 60 + j, lon |-> 70 + j, ori |-> OriOf(j)]
 ChildrenOf(kind, n, unann) == [j \in 1 .. n |-> ChildOf(kind, j, unann)]
 
+\* Location symbols.  "n" = the ordinary location of the child / update (distinct, non-zero); "o" = the origin,
+\* exactly (0, 0) - a real place, and an annotated node or an update may sit there; "la" / "lo" = only the
+\* latitude / only the longitude is 0 (controls).  0 renders to 0.0.  A node that is not annotated (version 0
+\* and location 0/0) is a different thing and keeps its meaning.
+LocAll == {"n", "o", "la", "lo"}
+SetLoc(r, lk) == CASE lk = "n"  -> r
+                   [] lk = "o"  -> [r EXCEPT !.lat = 0, !.lon = 0]
+                   [] lk = "la" -> [r EXCEPT !.lat = 0]
+                   [] lk = "lo" -> [r EXCEPT !.lon = 0]
+\* children with the location symbols lc[j] (annotated children only)
+ChildrenOfL(kind, n, unann, lc) ==
+  [j \in 1 .. n |-> IF kind = "way" /\ j = unann THEN ChildOf(kind, j, unann) ELSE SetLoc(ChildOf(kind, j, unann), lc[j])]
+
 \* the free dimensions of one update: which child, when, and (relations, way members only) whether the new
 \* version of the member way is the reverse of the previous one.  idx = n is beyond the child list.
-Choice(kind, n, T) ==
-  {c \in [idx : 0 .. n, time : 1 .. T, rev : BOOLEAN] :
+ChoiceL(kind, n, T, LK) ==
+  {c \in [idx : 0 .. n, time : 1 .. T, rev : BOOLEAN, loc : LK] :
        c.rev => (kind = "relation" /\ c.idx # 1)}
+Choice(kind, n, T) == ChoiceL(kind, n, T, {"n"})
 \* the payload of the k-th stored update is determined by k: changeset and location are distinct from each
-\* other and from the children's and never 0 (0/0 means "no location" in this library); the versions
+\* other and from the children's and not 0 unless the update's location symbol says so; the versions
 \* (children: 11, 12, ...) go up, down and repeat along the stored list so that an update can carry a
 \* version above, equal to or below the one the child currently has
 VerOf(k) == <<12, 11, 13, 11, 12>>[((k - 1) % 5) + 1]
-MkUpd(k, c) == [idx |-> c.idx, time |-> c.time, rev |-> c.rev,
-                ver |-> VerOf(k), cs |-> 20 + k, lat |-> 30 + k, lon |-> 40 + k]
+MkUpd(k, c) == SetLoc([idx |-> c.idx, time |-> c.time, rev |-> c.rev,
+                        ver |-> VerOf(k), cs |-> 20 + k, lat |-> 30 + k, lon |-> 40 + k], c.loc)
 MkList(f) == [k \in DOMAIN f |-> MkUpd(k, f[k])]
 
 Pairs(T) == {p \in (0 .. T) \X (0 .. T) : p[1] <= p[2]}
@@ -243,11 +258,11 @@ NoOut == [a1 |-> Nil, a12 |-> Nil, a2 |-> Nil, g1 |-> Nil, g2 |-> Nil]
 Init == /\ kind \in Kinds
         /\ \E n \in 1 .. MaxN, un \in UnannChoices :
               /\ (kind = "relation" => un = 0) /\ un <= n
-              /\ ch = ChildrenOf(kind, n, un)
+              /\ \E lc \in [1 .. n -> LocKinds] : ch = ChildrenOfL(kind, n, un, lc)
         /\ us = <<>> /\ t1 = 0 /\ t2 = 0 /\ pc = "build" /\ w = Nil /\ out = NoOut
 
 AddUpdate == /\ pc = "build" /\ Len(us) < MaxL
-             /\ \E c \in Choice(kind, Len(ch), MaxT) : us' = Append(us, MkUpd(Len(us) + 1, c))
+             /\ \E c \in ChoiceL(kind, Len(ch), MaxT, LocKinds) : us' = Append(us, MkUpd(Len(us) + 1, c))
              /\ UNCHANGED <<kind, ch, t1, t2, pc, w, out>>
 Choose == /\ pc = "build"
           /\ \E p \in Pairs(MaxT) : t1' = p[1] /\ t2' = p[2]
@@ -323,6 +338,10 @@ CasesExact(k, n, l, T, un, Own(_)) ==
 CasesExactOwn(k, n, l, T, un) ==
   {Case(k, ChildrenOf(k, n, un), MkList(f), p, T, o) :
       f \in [1 .. l -> Choice(k, n, T)], p \in Pairs(T), o \in OwnChoices(T)}
+\* the same with every location symbol on every child and every update
+CasesExactLoc(k, n, l, T, Own(_)) ==
+  {Case(k, ChildrenOfL(k, n, 0, lc), MkList(f), p, T, Own(T)) :
+      f \in [1 .. l -> ChoiceL(k, n, T, LocAll)], p \in Pairs(T), lc \in [1 .. n -> LocAll]}
 \* kind "group": a way, the time t1 (= t2) and a member list for mputil.Group
 GroupCase(n, l, T, un, f, t, ms, o) ==
   [kind |-> "group", children |-> ChildrenOf("way", n, un), updates |-> MkList(f), t1 |-> t, t2 |-> t, tmax |-> T,
